@@ -258,7 +258,9 @@ claim("C18",
       "str / a missing Path, or an exception is injected in the constructor, encode or convert phase) the export raises, EVERY "
       "file equals its previous contents and nothing is left below the temporary directories; otherwise the target holds the "
       "output, the resource folder holds exactly the new resources, every other file is unchanged and the temporary "
-      "directories are gone. The pre-repair write_html is refuted by a witness (existing resource folder). Against the "
+      "directories are gone. The hypotheses are preserved by every export (C18_wf_preserved), so the theorem applies again to a retry "
+      "after a failure and to a re-export over the previous output (C18_again). The pre-repair write_html is refuted by a "
+      "witness (existing resource folder). Against the "
       "implementation: sandboxed exports with a private tempfile.tempdir, the real LibreOfficeConverter over a fake soffice "
       "executable and converter stubs, an exception injected at every library call site (first and a random instance) via "
       "sys.settrace; the real file tree before/after decides the property and must equal the model's final file system path by path.",
